@@ -7,7 +7,7 @@
 From Coq Require Import List NArith ZArith Bool Lia Arith.
 From GmsmVerif Require Import Lib.Outcome EC.ECAffine EC.SM2Curve SM3.SM3Spec
      SM2.SM2Bytes SM2.SM2BytesProofs SM2.SM2Spec SM2.DER SM2.SM2Model SM2.SM2SignProofs SM2.SM2GroupMin
-     SM2.SM2EncProofs SM2.SM2Asn1Proofs SM2.SM2OtherKey.
+     SM2.SM2EncProofs SM2.SM2Asn1Proofs SM2.SM2OtherKey SM2.SM2Unconditional.
 From GmsmVerif Require Import SM2.SM2ParamsTie Gen.SM2Params Gen.SM2SigParams.
 Import ListNotations.
 Open Scope Z_scope.
@@ -204,6 +204,44 @@ Theorem C02_shared_points_differ :
     sm2_mul d' (sm2_base_mul k) <> sm2_mul d (sm2_base_mul k).
 Proof. exact shared_points_differ. Qed.
 Print Assumptions C02_shared_points_differ.
+
+(* ---- associativity is a theorem (SM2/ECAssoc.v): round trip and different-key results without that premise --- *)
+Theorem C02_decrypt_encrypt_noassoc :
+  P_prime -> G_multiples_finite -> forall fuel d M rho mode c rho',
+    1 <= d < sm2_n -> (length rho / 40 < fuel)%nat ->
+    Encrypt fuel (ScalarBaseMult d) M rho mode = Ok (c, rho') ->
+    Decrypt (key_of d) c mode = Ok M.
+Proof. intros Hp. exact (Decrypt_Encrypt Hp (add_assoc_holds Hp)). Qed.
+Print Assumptions C02_decrypt_encrypt_noassoc.
+
+Theorem C02_decryptAsn1_encryptAsn1_noassoc :
+  P_prime -> G_multiples_finite -> forall fuel d M rho der rho',
+    1 <= d < sm2_n -> (length rho / 40 < fuel)%nat -> Z.of_nat (length M) < 65000 ->
+    EncryptAsn1 fuel (ScalarBaseMult d) M rho = Ok (der, rho') ->
+    DecryptAsn1 (key_of d) der = Ok M.
+Proof. intros Hp. exact (DecryptAsn1_EncryptAsn1 Hp (add_assoc_holds Hp)). Qed.
+Print Assumptions C02_decryptAsn1_encryptAsn1_noassoc.
+
+Theorem C02_shared_points_differ_noassoc :
+  P_prime -> G_order_divides_n -> G_multiples_finite -> N_prime ->
+  forall d d' k, 1 <= d < sm2_n -> 1 <= d' < sm2_n -> d <> d' -> 1 <= k < sm2_n ->
+    sm2_mul d' (sm2_base_mul k) <> sm2_mul d (sm2_base_mul k).
+Proof. intros Hp. exact (shared_points_differ Hp (add_assoc_holds Hp)). Qed.
+Print Assumptions C02_shared_points_differ_noassoc.
+
+Theorem C02_other_key_rejected_or_collision_noassoc :
+  P_prime -> G_order_divides_n -> G_multiples_finite -> N_prime ->
+  forall fuel d d' M rho mode c rho' M',
+    1 <= d < sm2_n -> 1 <= d' < sm2_n -> d <> d' -> (length rho / 40 < fuel)%nat ->
+    Encrypt fuel (ScalarBaseMult d) M rho mode = Ok (c, rho') ->
+    Decrypt (key_of d') c mode = Ok M' ->
+    exists k, 1 <= k < sm2_n /\
+      let S := sm2_mul d (sm2_base_mul k) in let S' := sm2_mul d' (sm2_base_mul k) in
+      S' <> S /\
+      sm3 (fe_bytes (x_of S') ++ M' ++ fe_bytes (y_of S')) = sm3 (fe_bytes (x_of S) ++ M ++ fe_bytes (y_of S)) /\
+      fe_bytes (x_of S') ++ M' ++ fe_bytes (y_of S') <> fe_bytes (x_of S) ++ M ++ fe_bytes (y_of S).
+Proof. intros Hp. exact (other_key_collision Hp (add_assoc_holds Hp)). Qed.
+Print Assumptions C02_other_key_rejected_or_collision_noassoc.
 
 (* ---- tie to the source: curve constants, 40 nonce bytes, mode values, minimal ciphertext length ---------- *)
 Theorem C02_source_constants_tied :
